@@ -256,8 +256,15 @@ impl Property for C19 {
             "import-list entries and definition-site function names are optional members of the highlight set".into(),
         ]
     }
+    fn fuzz(&self) -> Option<crate::FuzzSpec> {
+        Some(crate::FuzzSpec { label: "c19-real", max_len: 700, runs: 900 })
+    }
     fn run(&self, ctx: &mut Ctx) {
         // (a) exhaustive encoder tier
+        'enumerations: {
+        if ctx.fuzzing() {
+            break 'enumerations;
+        }
         let max_len = ctx.tier.pick(5, 6);
         let mut local: HashSet<u64> = HashSet::new();
         let mut space = 0u64;
@@ -337,6 +344,7 @@ impl Property for C19 {
         }
         ctx.space("documents x highlight lists", space);
         ctx.stats.nt_disjoint += local.len() as u64;
+        }
 
         // (b) real highlight output
         let corpus_files = corpus();
